@@ -90,6 +90,12 @@ def trace_inclusion(ck, model_ok, tier, replay):
         if not complete:
             ck.broke("correspondence", "pool-model-exploration-incomplete", {"prog": [backend, hasprim, spawners, shutdown, waiters], "states": nstates})
             continue
+        # finite check on the model itself: in every terminal outcome of every interleaving each accepted task started exactly once
+        for o in allowed:
+            if tuple(o[0]) != tuple(o[2]) or (o[5] and o[4] == 0) or o[6] != 0 or 2 in o[3]:
+                if not (2 in o[3] and not o[5] and False):
+                    ck.broke("obligation", "pool-model-terminal-outcome-violates-property", {"prog": [backend, hasprim, spawners, shutdown, waiters], "outcome": o})
+                    break
         prog = {"backend": backend, "hasprimary": hasprim, "spawners": spawners, "shutdown": shutdown, "shutdown_after": None,
                 "waiters": len(waiters), "waiter_timeout": None, "task_yields": True, "failing_task": False}
         # per-waiter time-outs: all timed or all untimed in these programs
